@@ -7,8 +7,9 @@ CONSTANTS
   ValsLo <- MCLo
   ValsHi <- MCHi
   Kinds = {"arch", "param"}
-  MaxDec = 3
-  MaxOps = 5
+  MaxDec = 4
+  MaxDecHi = 2
+  MaxOps = 6
 INVARIANT GramDef
 INVARIANT IsInverse
 INVARIANT Symmetric
